@@ -384,6 +384,40 @@ func engRunJobs(c *hx.Ctx, jobs []engJob, q time.Duration) {
 			c.Sample(fmt.Sprintf("eng ops=[%s] handler=%s events=[%s]", strings.Join(out[i].applied, " "), hx.B01(j.cfg.handler), strings.Join(out[i].events, " ")))
 		}
 	}
+	// the two ways in which Close never returns (both are accepted by the monitor, see ENG_close_*_refuted)
+	noLoop, heldConn, hungTotal := 0, 0, 0
+	for i := range jobs {
+		ev := out[i].events
+		xc, xr, ac := -1, false, false
+		for k, e := range ev {
+			if e == "XC" && xc < 0 {
+				xc = k
+				for _, p := range ev[:k] {
+					if strings.HasPrefix(p, "AC:") {
+						ac = true
+					}
+				}
+			}
+			if e == "XR" && xc >= 0 {
+				xr = true
+			}
+		}
+		if xc >= 0 && !xr {
+			hungTotal++
+			late := false
+			for _, e := range ev[xc:] {
+				if strings.HasPrefix(e, "AC:") {
+					late = true
+				}
+			}
+			if !ac && !late {
+				noLoop++
+			} else {
+				heldConn++
+			}
+		}
+	}
+	c.Emit("obs engine_close_never_returned: in %d of %d traces Engine.Close was called and had not returned when the trace ended: %d on an engine whose Accept was never called, %d with an accept loop that holds an unhandled connection or is still inside its server's Accept", hungTotal, len(jobs), noLoop, heldConn)
 	c.Stat("eng_sequences", len(jobs))
 	c.Stat("eng_distinct_applied", len(seen))
 }
@@ -478,7 +512,7 @@ func runEngine(c *hx.Ctx) {
 		}
 	}
 	// random longer sequences
-	nr := 150
+	nr := 300
 	if c.Thorough() {
 		nr = 3000
 	}
